@@ -983,6 +983,9 @@ func (in *Interp) lookup(fr *Frame, instr *ssa.Lookup) Value {
 }
 
 func (in *Interp) mapSet(fr *Frame, m *Map, k, v Value) {
+	if in.track != nil && in.track.maps[m] {
+		in.track.hits++
+	}
 	if e := in.mapFind(fr, m, k); e != nil {
 		e.v = v
 		return
